@@ -3,6 +3,7 @@
 package main
 
 import (
+	"runtime/pprof"
 	"bytes"
 	"encoding/json"
 	"flag"
@@ -623,6 +624,7 @@ func run(dir string, seed uint64, tier string) error {
 			rn.scenario(w, g, nq)
 		}
 	}
+	rn.out.Stats["child-process-getpath"] = childSpawns
 	rn.out.Close()
 	return nil
 }
@@ -727,6 +729,11 @@ func main() {
 	case "extract":
 		err = extract()
 	case "run":
+		if pf := os.Getenv("C14_PROF"); pf != "" {
+			f, _ := os.Create(pf)
+			pprof.StartCPUProfile(f)
+			defer pprof.StopCPUProfile()
+		}
 		err = run(*dir, *seed, *tier)
 	case "replay":
 		err = replay(*file)
